@@ -361,6 +361,11 @@ class HomogeneousGroup:
                 ref_identifiers = self.supvisors.mapper.filter(self.hash_identifiers)
             self.logger.debug(f'ProcessRules.assign_hash_identifiers: program={self.program_name}'
                               f' {ref_identifiers=}')
+            if not ref_identifiers:
+                # none of the Supvisors instances declared in the rule is known (yet): nothing can be assigned
+                self.logger.warn(f'ProcessRules.assign_hash_identifiers: program={self.program_name}'
+                                 f' - no known Supvisors instance in {self.hash_identifiers}')
+                return
             # the aim of hash_identifiers is to distribute the processes over a list of Supvisors instances, so
             # unassigned processes will go to the least loaded Supvisors instance, wrt the homogeneous group considered
             process_count_per_instance = {identifier: [] for identifier in ref_identifiers}
